@@ -144,10 +144,11 @@ class Check:
             "wall_s": round(wall, 3),
             "violations": len(self.violations),
         }
-        os.makedirs(os.path.join(VERIF, "evidence"), exist_ok=True)
-        with open(os.path.join(VERIF, "evidence", f"{self.pid}.json"), "w") as fh:
-            json.dump(ev, fh, indent=1, sort_keys=True, default=str)
-            fh.write("\n")
+        if not os.environ.get("HV_NO_EVIDENCE"):
+            os.makedirs(os.path.join(VERIF, "evidence"), exist_ok=True)
+            with open(os.path.join(VERIF, "evidence", f"{self.pid}.json"), "w") as fh:
+                json.dump(ev, fh, indent=1, sort_keys=True, default=str)
+                fh.write("\n")
         print(f"[{self.pid}] tier={self.tier} obligations={self.obligations} discharged={self.discharged} "
               f"nontrivial={len(self.nontrivial)} wall={wall:.2f}s")
         for k, v in sorted(self.rule_counts.items()):
@@ -159,8 +160,12 @@ class Check:
         for k in self.known_hits:
             print(f"KNOWN-FINDING: property={self.pid} rule={k['rule']} construct={k['construct']} :: {k['known'] or k['message']}")
         if self.violations:
-            os.makedirs(os.path.join(VERIF, "replay"), exist_ok=True)
-            path = os.path.join(VERIF, "replay", f"{self.pid}.json")
+            rdir = os.environ.get("HV_REPLAY_DIR") or os.path.join(VERIF, "replay")
+            if os.environ.get("HV_NO_EVIDENCE"):
+                import tempfile
+                rdir = tempfile.gettempdir()
+            os.makedirs(rdir, exist_ok=True)
+            path = os.path.join(rdir, f"{self.pid}.json")
             with open(path, "w") as fh:
                 json.dump({"property": self.pid, "tier": self.tier, "violations": self.violations}, fh,
                           indent=1, default=str)
@@ -197,6 +202,8 @@ def run_rule_module(pid, tier, fn):
 
 
 def _broken_evidence(pid, tier, msg, wall):
+    if os.environ.get("HV_NO_EVIDENCE"):
+        return
     ev = {"property_id": pid, "tier": tier, "seed": 0, "level": "other",
           "coverage": {"explanation": "ANALYSIS-ERROR: " + msg, "evaluations": 0, "distinct_nontrivial": 0},
           "wall_s": round(wall, 3), "violations": 0}
